@@ -1269,33 +1269,17 @@ Proof.
   induction k as [|k IH]; intros l H; [exact H|]. destruct l as [|x l]; [exact I|]. cbn [skipn].
   apply IH. destruct H as [_ H]. exact H.
 Qed.
-Lemma within_go_In location x : forall fs, In x (within_go location fs) -> In x fs.
-Proof.
-  induction fs as [|f rest IH]; intros H; [destruct H|]. cbn [within_go] in H.
-  destruct (contains location f).
-  - destruct H as [<-|H]; [left; reflexivity|right; apply IH; exact H].
-  - destruct (overlap f location).
-    + destruct H as [<-|H]; [left; reflexivity|right; apply IH; exact H].
-    + destruct rest as [|nxt rest']; [destruct H|].
-      destruct (contains f nxt); [right; apply IH; exact H|destruct H].
-Qed.
-Lemma within_go_sorted location : forall fs, starts_sorted (map gene_span fs) ->
-  starts_sorted (map gene_span (within_go location fs)).
-Proof.
-  induction fs as [|f rest IH]; intros H; [exact I|]. cbn [map starts_sorted] in H. destruct H as [Hf Hr].
-  assert (Hcons : starts_sorted (map gene_span (f :: within_go location rest))).
-  { cbn [map starts_sorted]. split; [|apply IH; exact Hr].
-    apply Forall_forall. intros h Hh. apply in_map_iff in Hh. destruct Hh as (c & <- & Hc).
-    apply within_go_In in Hc. rewrite Forall_forall in Hf. apply Hf. apply in_map. exact Hc. }
-  cbn [within_go]. destruct (contains location f); [exact Hcons|].
-  destruct (overlap f location); [exact Hcons|].
-  destruct rest as [|nxt rest']; [exact I|]. destruct (contains f nxt); [apply IH; exact Hr|exact I].
-Qed.
+(* the genes handed to the gap search for an area part (all_orfs._overlapping_cds_features): still ordered by start,
+   and - since the repair of FC15a area_misses_enclosing_gene - EVERY gene of the record that overlaps the part *)
 Lemma cds_within_sorted cds p : starts_sorted (map gene_span cds) -> starts_sorted (map gene_span (cds_within cds p)).
 Proof.
-  intros H. unfold cds_within. destruct cds as [|c0 cds']; [exact I|].
-  apply within_go_sorted. rewrite <- skipn_map. apply starts_sorted_skipn. exact H.
+  intros H. unfold cds_within. induction cds as [|c cds IH]; [exact I|]. cbn [map starts_sorted] in H. destruct H as [H1 H2].
+  cbn [filter]. destruct (overlap c [p]); [|apply IH; exact H2]. cbn [map starts_sorted]. split; [|apply IH; exact H2].
+  apply Forall_forall. intros h Hh. apply in_map_iff in Hh. destruct Hh as (d & <- & Hd). apply filter_In in Hd.
+  rewrite Forall_forall in H1. apply H1. apply in_map. apply Hd.
 Qed.
+Lemma cds_within_complete cds p c : In c cds -> overlap c [p] = true -> In c (cds_within cds p).
+Proof. intros Hc Ho. unfold cds_within. apply filter_In. split; assumption. Qed.
 
 (* ------------------------------------------------------------------ the intergenic areas of find_all_orfs *)
 (* an area that find_all_orfs may scan: a window of the record (possibly over the origin) not longer than the
@@ -1328,25 +1312,23 @@ Proof.
   - rewrite zrange_nonpos by lia. cbn. exact Hov.
 Qed.
 
-(* the gap search over the genes the look-up helper returns for a part: when the helper misses no gene that
-   overlaps the part, the bound holds for EVERY gene of the record *)
+(* the gap search over the genes found for a part: the helper misses no gene that overlaps the part
+   (cds_within_complete), so the bound holds for EVERY gene of the record *)
 Lemma part_gene_bound cds p ml ov a c :
-  0 <= ov -> starts_sorted (map gene_span cds) -> helper_complete cds p = true ->
+  0 <= ov -> starts_sorted (map gene_span cds) ->
   In a (find_intergenic_areas (ps p) (pe p) (map gene_span (cds_within cds p)) ml ov) -> In c cds ->
   count (fun x => in_loc x c) (zrange (fst a) (snd a - fst a)) <= ov.
 Proof.
-  intros Hov Hs Hhelp Hin Hc.
+  intros Hov Hs Hin Hc.
   pose proof (cds_within_sorted cds p Hs) as Hs'.
-  unfold helper_complete in Hhelp. rewrite forallb_forall in Hhelp. specialize (Hhelp c Hc).
-  apply orb_prop in Hhelp. destruct Hhelp as [Hno|Hfound].
-  - apply negb_true_iff in Hno.
+  destruct (overlap c [p]) eqn:Hno.
+  2: {
     destruct (area_bounds _ _ _ _ _ _ Hov Hs' Hin) as (Hb1 & Hb2 & _).
     rewrite count_none; [exact Hov|]. intros x Hx. apply zrange_In in Hx.
     destruct (in_loc x c) eqn:Hxc; [|reflexivity]. exfalso.
     pose proof (no_overlap_no_position c p x Hno Hxc) as Hp. unfold in_part in Hp.
-    apply andb_false_iff in Hp. destruct Hp as [Hp|Hp]; [apply Z.leb_gt in Hp|apply Z.ltb_ge in Hp]; lia.
-  - apply existsb_exists in Hfound. destruct Hfound as (d & Hd & Heq). apply loc_eqb_eq in Heq. subst d.
-    exact (found_gene_bound _ _ _ _ _ _ _ Hov Hs' Hin Hd).
+    apply andb_false_iff in Hp. destruct Hp as [Hp|Hp]; [apply Z.leb_gt in Hp|apply Z.ltb_ge in Hp]; lia. }
+  exact (found_gene_bound _ _ _ _ _ _ _ Hov Hs' Hin (cds_within_complete cds p c Hc Hno)).
 Qed.
 
 Lemma plain_area_ok N cds area ov a lo hi :
@@ -1460,12 +1442,12 @@ Qed.
 Lemma merged_area_ok N cds p1 p2 ml ov pre post :
   0 < N -> 0 <= ml -> 0 <= ov -> starts_sorted (map gene_span cds) ->
   pe p1 = N -> ps p2 = 0 -> 0 < pe p2 -> pe p2 <= ps p1 -> ps p1 < N ->
-  helper_complete cds p1 = true -> helper_complete cds p2 = true -> no_gene_in_both cds p1 p2 = true ->
+  no_gene_in_both cds p1 p2 = true ->
   let areas := flat_map (fun p => find_intergenic_areas (ps p) (pe p) (map gene_span (cds_within cds p)) ml ov) [p1; p2] in
   In pre areas -> In post areas -> snd pre = N -> fst post = 0 -> fst pre - N < 0 ->
   area_ok N cds (Some [p1; p2]) ov (fst pre - N, snd post).
 Proof.
-  intros HN Hml Hov Hs E1 E2 E3 E4 E5 Hh1 Hh2 Hboth. cbn zeta. cbn [flat_map]. rewrite app_nil_r.
+  intros HN Hml Hov Hs E1 E2 E3 E4 E5 Hboth. cbn zeta. cbn [flat_map]. rewrite app_nil_r.
   intros Hpre Hpost Hsp Hfp Hneg.
   pose proof (cds_within_sorted cds p1 Hs) as Hs1. pose proof (cds_within_sorted cds p2 Hs) as Hs2.
   assert (Hpre1 : In pre (find_intergenic_areas (ps p1) (pe p1) (map gene_span (cds_within cds p1)) ml ov)).
@@ -1484,8 +1466,8 @@ Proof.
     - replace (a - N + (N - a)) with 0 by lia. apply map_mod_zrange_id; lia. }
   unfold area_ok. cbn [fst snd]. rewrite Hpos. split; [right; lia|]. split; [lia|]. split.
   - intros c Hc. rewrite count_app.
-    pose proof (part_gene_bound cds p1 ml ov pre c Hov Hs Hh1 Hpre1 Hc) as B1.
-    pose proof (part_gene_bound cds p2 ml ov post c Hov Hs Hh2 Hpost2 Hc) as B2.
+    pose proof (part_gene_bound cds p1 ml ov pre c Hov Hs Hpre1 Hc) as B1.
+    pose proof (part_gene_bound cds p2 ml ov post c Hov Hs Hpost2 Hc) as B2.
     replace (snd pre - fst pre) with (N - a) in B1 by (unfold a; lia).
     replace (snd post - fst post) with b in B2 by (unfold b; lia). rewrite Hfp in B2. fold a in B1.
     unfold no_gene_in_both in Hboth. rewrite forallb_forall in Hboth. specialize (Hboth c Hc).
@@ -1524,28 +1506,28 @@ Proof.
       apply Z.leb_le in H1, H2, H3.
       destruct (area_bounds _ _ _ _ _ _ Hov (cds_within_sorted cds p1 Hsb) Ha) as (B1 & B2 & B3).
       apply (plain_area_ok N cds (Some [p1]) ov a (ps p1) (pe p1)); try lia.
-      * intros c Hc. exact (part_gene_bound cds p1 ml ov a c Hov Hsb Hcls Ha Hc).
+      * intros c Hc. exact (part_gene_bound cds p1 ml ov a c Hov Hsb Ha Hc).
       * intros x Hx. cbn [in_searched in_loc existsb]. rewrite orb_false_r. apply in_part_iff. exact Hx.
     + (* two parts over the origin *)
       cbn [intergenic_for is_compound] in Hres.
       apply andb_prop in Hshape. destruct Hshape as [Hshape E5]. apply andb_prop in Hshape. destruct Hshape as [Hshape E4].
       apply andb_prop in Hshape. destruct Hshape as [Hshape E3]. apply andb_prop in Hshape. destruct Hshape as [E1 E2].
       apply Z.eqb_eq in E1, E2. apply Z.ltb_lt in E3, E5. apply Z.leb_le in E4.
-      apply andb_prop in Hcls. destruct Hcls as [Hcls Hboth]. apply andb_prop in Hcls. destruct Hcls as [Hh1 Hh2].
+      pose proof Hcls as Hboth.
       pose proof (cross_origin_result N cds [p1; p2] ml ov areas Hres a Ha) as Hcase. cbn zeta in Hcase.
       destruct Hcase as [Hin|(pre & post & Hpre & Hpost & Hsp & Hfp & Hneg & ->)].
       * cbn [flat_map] in Hin. rewrite app_nil_r in Hin. apply in_app_or in Hin. destruct Hin as [Hin|Hin].
         -- destruct (area_bounds _ _ _ _ _ _ Hov (cds_within_sorted cds p1 Hsb) Hin) as (B1 & B2 & B3).
            apply (plain_area_ok N cds (Some [p1; p2]) ov a (ps p1) (pe p1)); try lia.
-           ++ intros c Hc. exact (part_gene_bound cds p1 ml ov a c Hov Hsb Hh1 Hin Hc).
+           ++ intros c Hc. exact (part_gene_bound cds p1 ml ov a c Hov Hsb Hin Hc).
            ++ intros x Hx. cbn [in_searched in_loc existsb].
               assert (E : in_part x p1 = true) by (apply in_part_iff; lia). rewrite E. reflexivity.
         -- destruct (area_bounds _ _ _ _ _ _ Hov (cds_within_sorted cds p2 Hsb) Hin) as (B1 & B2 & B3).
            apply (plain_area_ok N cds (Some [p1; p2]) ov a (ps p2) (pe p2)); try lia.
-           ++ intros c Hc. exact (part_gene_bound cds p2 ml ov a c Hov Hsb Hh2 Hin Hc).
+           ++ intros c Hc. exact (part_gene_bound cds p2 ml ov a c Hov Hsb Hin Hc).
            ++ intros x Hx. cbn [in_searched in_loc existsb].
               assert (E : in_part x p2 = true) by (apply in_part_iff; lia). rewrite E. apply orb_true_r.
-      * exact (merged_area_ok N cds p1 p2 ml ov pre post HN Hml Hov Hsb E1 E2 E3 E4 E5 Hh1 Hh2 Hboth Hpre Hpost Hsp Hfp Hneg).
+      * exact (merged_area_ok N cds p1 p2 ml ov pre post HN Hml Hov Hsb E1 E2 E3 E4 E5 Hboth Hpre Hpost Hsp Hfp Hneg).
   - (* whole record *)
     cbn [intergenic_for] in Hres. inversion Hres; subst areas. clear Hres.
     destruct (area_bounds _ _ _ _ _ _ Hov Hsb Ha) as (B1 & B2 & B3).
@@ -1877,20 +1859,16 @@ Proof.
     cbn [zl_eqb]. rewrite Z.eqb_refl. exact IH.
 Qed.
 
-(* the guard is needed: recorded finding FC15a area_misses_enclosing_gene as a statement about the model - a well-formed
-   input outside the guard (class 1) on which a returned feature shares more than max_overlap positions with a gene *)
-Lemma gaps_refuted_helper : exists g cds area ml ov feats f c,
-  gaps_wf (zlen g) cds (Some area) ml ov = true /\ forallb acgtb g = true /\ gaps_class cds (Some area) = 1 /\
-  find_all_orfs g cds (Some area) ml ov = Ok feats /\ In f feats /\ In c cds /\ ov < shared (floc f) c.
-Proof.
-  exists [67; 67; 67; 67; 67; 67; 67; 67; 67; 67; 67; 67; 67; 67; 67; 67; 67; 67; 67; 67; 67; 67; 67; 67; 67; 67; 67; 67; 67; 67; 67; 67; 67; 65; 84; 71; 65; 65; 65; 84; 65; 65; 67; 67; 67; 67; 67; 67; 67; 67; 67; 67; 67; 67; 67; 67; 67; 67; 67; 67],
-         [[mkPart 5 40 (1)]; [mkPart 10 20 (1)]],
-         [mkPart 30 60 (1)], 5, 0.
-  eexists. eexists. eexists.
-  split; [vm_compute; reflexivity|]. split; [vm_compute; reflexivity|]. split; [vm_compute; reflexivity|].
-  split; [vm_compute; reflexivity|].
-  split; [left; reflexivity|]. split; [left; reflexivity|]. vm_compute. reflexivity.
-Qed.
+(* FC15a area_misses_enclosing_gene is repaired: its recorded witness (genes [5:40) [10:20), area [30:60), max_overlap 0 -
+   the nested gene used to hide the enclosing one from the look-up, and ORF [33:42)(+) inside [5:40) was returned) is
+   now INSIDE the guard, the enclosing gene is handed to the gap search and nothing is returned *)
+Lemma gaps_witness_FC15a_repaired :
+  let g := [67; 67; 67; 67; 67; 67; 67; 67; 67; 67; 67; 67; 67; 67; 67; 67; 67; 67; 67; 67; 67; 67; 67; 67; 67; 67; 67; 67; 67; 67; 67; 67; 67; 65; 84; 71; 65; 65; 65; 84; 65; 65; 67; 67; 67; 67; 67; 67; 67; 67; 67; 67; 67; 67; 67; 67; 67; 67; 67; 67] in
+  let cds := [[mkPart 5 40 1]; [mkPart 10 20 1]] in
+  gaps_guard (zlen g) cds (Some [mkPart 30 60 1]) 5 0 = true /\
+  cds_within cds (mkPart 30 60 1) = [[mkPart 5 40 1]] /\
+  find_all_orfs g cds (Some [mkPart 30 60 1]) 5 0 = Ok [].
+Proof. cbn zeta. split; [vm_compute; reflexivity|]. split; vm_compute; reflexivity. Qed.
 
 (* the guard is needed: recorded finding FC15b origin_gene_padding_window as a statement about the model - a well-formed
    input outside the guard (class 2) on which a returned feature shares more than max_overlap positions with a gene *)
